@@ -7,7 +7,7 @@ RULE = ("directed histories (diamond, heads at different heights, null/value tie
         "point with all replicas compared; distinct = distinct (case, commit count)")
 ASSUME = [
     "the Lean mirror of updateHeads/setValue/incrementValue/Merge/isMerged/loadComposites/processBlock is the Go code (compared after every local write and every delivery, incl. head sets)",
-    "mirror state = canon(merged set) is checked by execution at every step (SPEC-DIFFERS marker); proved about the walk for every block store: it collects each commit at most once, skips only commits reachable from the heads (isMerged is sound), and reaches every commit reachable through unmerged commits; and, in a well-formed store, isMerged decides exactly 'head or ancestor of a head' (merged_commit_is_recognised); proved end to end at the composite level (Props/C02 merge_applies_exactly_the_unmerged_ancestors_once, about mergeDoc itself): the applied blocks are exactly the commit and its unmerged ancestors, once each, parents first; merged set after = merged set before + ancestors; its hypotheses (wfCheck, headsCheck) are evaluated by drv crdt on every store of the run (MERGE-THEOREM-HYPOTHESIS-FALSE marker); and for the whole document state (Props/C02 merge_end_to_end_whole_document, counter_gains_each_new_increment_once): every head set, composite and per field, grows by exactly the processed blocks of its kind, and the values are the old ones with the deltas of the applied blocks - the processed blocks not merged before, each once, equal content-addressed field blocks linked by several composites counted once; hypotheses wfCheck3 / kinvCheck / linkInvCheck evaluated on every store and state of the run; NOT proved: that mirror = canon(merged set) as a closed formula (max/sum over the merged set) follows - that step uses the fold lemmas of C01 (order independence) and is checked by execution",
+    "mirror state = canon(merged set) is checked by execution at every step (SPEC-DIFFERS marker); proved about the walk for every block store: it collects each commit at most once, skips only commits reachable from the heads (isMerged is sound), and reaches every commit reachable through unmerged commits; and, in a well-formed store, isMerged decides exactly 'head or ancestor of a head' (merged_commit_is_recognised); proved end to end at the composite level (Props/C02 merge_applies_exactly_the_unmerged_ancestors_once, about mergeDoc itself): the applied blocks are exactly the commit and its unmerged ancestors, once each, parents first; merged set after = merged set before + ancestors; its hypotheses (wfCheck, headsCheck) are evaluated by drv crdt on every store of the run (MERGE-THEOREM-HYPOTHESIS-FALSE marker); and for the whole document state (Props/C02 merge_end_to_end_whole_document, counter_gains_each_new_increment_once): every head set, composite and per field, grows by exactly the processed blocks of its kind, and the values are the old ones with the deltas of the applied blocks - the processed blocks not merged before, each once, equal content-addressed field blocks linked by several composites counted once; hypotheses wfCheck3 / kinvCheck / linkInvCheck evaluated on every store and state of the run; and for every history (Props/C01 same_commits_same_document, values_are_the_merged_deltas_once; Proofs/CrdtConverge): after any sequence of deliveries from the empty state the values are the deltas of the merged blocks, each once, so two replicas that merged the same commits show the same values; the closed form canon(merged set) (max / sum formulas) is additionally compared by execution",
     "every block a delivery refers to is available (the harness copies the block store before each delivery), i.e. `known` is always true",
     "cid is a function of content (SHA-256 collision freedom); labels are assigned per cid",
 ]
